@@ -3,18 +3,26 @@ open Model
 open Sexp
 open Conv
 
-type c16case = { mask : int; uses : bool; base : n list; strict : bool; kind : string; res : n list; probes : (n list * n list) list; ng : int; nm : int; twice : bool }
+type c16case = { umode : int; mask : int; uses : bool; base : n list; strict : bool; kind : string; res : n list; probes : (n list * n list) list; ng : int; nm : int; twice : bool }
 let parse_case = function
   | L (A "c16" :: m :: u :: b :: st :: A kind :: res :: L ps :: rest) ->
-    let (ng, nm, twice) = match rest with [a; b] -> (int a, int b, false) | [a; b; t] -> (int a, int b, bool t) | _ -> (0, 0, false) in
-    { twice; mask = int m; uses = bool u; base = str b; strict = bool st; kind; res = str res; ng; nm;
+    let (ng, nm, twice, umode) = match rest with [a; b] -> (int a, int b, false, 0) | [a; b; t] -> (int a, int b, bool t, 0)
+                                            | [a; b; t; u] -> (int a, int b, bool t, int u) | _ -> (0, 0, false, 0) in
+    { twice; umode; mask = int m; uses = bool u; base = str b; strict = bool st; kind; res = str res; ng; nm;
       probes = List.map (function L [m; p] -> (str m, str p) | _ -> failwith "c16: bad probe") ps }
   | x -> failwith ("c16: bad case " ^ to_string x)
 
 (* the base path of the second registration of the same controller: "/zz/" ++ base without its leading slashes *)
 let second_base base = let rec dl = function c :: r when int_of_n c = 47 -> dl r | l -> l in str_of_ascii "/zz/" @ dl base
 let acts_of mask = List.filter (fun a -> (mask lsr (int_of_nat (action_id a))) land 1 = 1) all_actions
-let uses_of c a = if c.uses && List.mem (int_of_nat (action_id a)) [0; 3; 4; 6] then [nat_of_int (10 + int_of_nat (action_id a))] else []
+(* the shapes of Uses(): 0 = one middleware for four of the actions, 1 = two (in order) for those four, 2 = one for each action *)
+let uses_of c a =
+  let id = int_of_nat (action_id a) in
+  if not c.uses then []
+  else if c.umode = 2 then [nat_of_int (10 + id)]
+  else if not (List.mem id [0; 3; 4; 6]) then []
+  else if c.umode = 1 then [nat_of_int (10 + id); nat_of_int (30 + id)]
+  else [nat_of_int (10 + id)]
 let outer_mws c = List.init c.ng (fun k -> 50 + k) @ List.init c.nm (fun k -> 60 + k)
 let mw_obs c a = outer_mws c @ List.map (fun h -> int_of_nat h - 10) (uses_of c a)
 
